@@ -453,6 +453,27 @@ func runC19(r *core.Run) {
 			"DECLARE c CURSOR FOR SELECT id FROM t; OPEN c; VAR @x; FETCH ABSOLUTE "+a+" c INTO @x; FETCH RELATIVE "+a+" c INTO @x;",
 			"SELECT id FROM t WHERE id IN (SELECT id FROM t LIMIT "+a+");", "SELECT LISTAGG(v, "+a+") FROM t;", "SELECT id, SUM(id) OVER (ORDER BY id ROWS BETWEEN 1 PRECEDING AND CURRENT ROW) FROM t LIMIT "+a+";")
 	}
+	// window frames: offsets are integer literals by grammar
+	for _, a := range []string{"0", "1", "100000", "9223372036854775807"} {
+		for _, fn := range []string{"SUM(id)", "FIRST_VALUE(v)", "LAST_VALUE(v)", "NTH_VALUE(v, 2)", "LISTAGG(v)"} {
+			for _, fr := range []string{"ROWS " + a + " PRECEDING", "ROWS BETWEEN " + a + " PRECEDING AND " + a + " FOLLOWING", "ROWS BETWEEN CURRENT ROW AND " + a + " FOLLOWING",
+				"ROWS BETWEEN " + a + " FOLLOWING AND UNBOUNDED FOLLOWING", "ROWS BETWEEN " + a + " PRECEDING AND 1 PRECEDING", "ROWS BETWEEN " + a + " FOLLOWING AND " + a + " FOLLOWING"} {
+				stmts = append(stmts, "SELECT id, "+fn+" OVER (ORDER BY id "+fr+") AS r FROM t;")
+			}
+		}
+	}
+	// one name several times where a list of names is expected; a statement executing a statement
+	stmts = append(stmts,
+		"INSERT INTO t (id, id) VALUES (1, 2); ROLLBACK;", "INSERT INTO t (id, v, id) SELECT 1, 2, 3; ROLLBACK;", "REPLACE INTO t (id, v) USING (id, id, id) VALUES (1, 'q'); ROLLBACK;",
+		"REPLACE INTO t (id, id) USING (id) VALUES (1, 2); ROLLBACK;", "REPLACE INTO t (id, v) USING (v, id, v) SELECT 1, 2; ROLLBACK;", "UPDATE t SET v = 1, v = 2; ROLLBACK;",
+		"ALTER TABLE t ADD (x, x); ROLLBACK;", "ALTER TABLE t DROP (v, v); ROLLBACK;", "ALTER TABLE t RENAME v TO id; ROLLBACK;", "CREATE TABLE n (a, a); ROLLBACK;",
+		"SELECT id, COUNT(*) FROM t GROUP BY id, id;", "SELECT * FROM t ORDER BY id, id, v, id;", "SELECT id, SUM(id) OVER (PARTITION BY v, v ORDER BY id, id) AS r FROM t;",
+		"SELECT * FROM t JOIN t u USING (id, id);", "WITH c AS (SELECT 1), c AS (SELECT 2) SELECT * FROM c;", "VAR @a, @a;", "DECLARE f FUNCTION (@a, @a) AS BEGIN RETURN 1; END;",
+		"DECLARE c CURSOR FOR SELECT id, v FROM t; OPEN c; VAR @x; FETCH c INTO @x, @x;", "SELECT id AS a, v AS a FROM t ORDER BY a;", "SELECT * FROM (SELECT id AS a, v AS a FROM t) s WHERE a = 1;",
+		"PREPARE p FROM 'SELECT ?'; PREPARE q FROM 'EXECUTE p USING ?'; EXECUTE q USING 1;", "PREPARE p FROM 'SELECT :a'; PREPARE q FROM 'EXECUTE p USING :a AS a'; EXECUTE q USING 1 AS a;",
+		"PREPARE p FROM 'SELECT ?'; EXECUTE p;", "PREPARE p FROM 'SELECT ?'; EXECUTE p USING 1, 2;",
+		"PREPARE p FROM 'SELECT id FROM t WHERE id = ?'; DECLARE c CURSOR FOR p; PREPARE q FROM 'OPEN c USING ?'; EXECUTE q USING 2;",
+		"SELECT COUNT(DISTINCT 1), COUNT(DISTINCT *), COUNT(DISTINCT NULL) FROM t;")
 	classes, errs := isolatedExec(r, stmts, map[string]string{"t.csv": "id,v\n1,a\n2,b\n3,\n"})
 	for i, s := range stmts {
 		r.Distinct(s)
@@ -595,28 +616,33 @@ func runC19(r *core.Run) {
 	}
 
 	// ---- TLC judges every event ----
-	rest, base := lines, 0
-	for rounds := 0; rounds < 60 && len(rest) > 0; rounds++ {
-		res := r.RunTLC(core.TLCOpts{Module: "OutcomeTrace", Cfg: "OutcomeTrace.cfg", Workers: 1, Timeout: 10 * time.Minute, KeepOut: true,
-			Texts: map[string]string{"trace.ndjson": strings.Join(rest, "\n") + "\n"}})
-		if res.OK {
-			break
-		}
-		if res.Violated != "TraceAccepted" && res.Violated != "" {
-			core.Fail("OutcomeTrace: %s", res.ErrorText)
-		}
-		idx := res.Depth - 1
-		if idx < 0 || idx >= len(rest) {
-			core.Fail("OutcomeTrace rejected at an impossible line")
-		}
-		g := base + idx
+	var rejected []int
+	res := r.RunTLC(core.TLCOpts{Module: "OutcomeTrace", Cfg: "OutcomeTrace.cfg", Workers: 1, Timeout: 15 * time.Minute, KeepOut: true,
+		// the last line is the binding self-test: an internal failure that TLC must reject
+		Texts: map[string]string{"trace.ndjson": strings.Join(lines, "\n") + "\n" + core.JSON(map[string]interface{}{"kind": "nofatal", "class": "fatal"}) + "\n"},
+		OnTrace: func(raw json.RawMessage) {
+			var x struct{ Reject int }
+			if err := json.Unmarshal(raw, &x); err != nil || x.Reject < 1 || x.Reject > len(lines)+1 {
+				core.Fail("OutcomeTrace printed %s", raw)
+			}
+			rejected = append(rejected, x.Reject-1)
+		}})
+	if !res.OK {
+		core.Fail("OutcomeTrace did not consume the whole trace: %s", res.ErrorText)
+	}
+	sort.Ints(rejected)
+	if len(rejected) == 0 || rejected[len(rejected)-1] != len(lines) {
+		core.Fail("binding self-test: OutcomeTrace accepted an event of class fatal")
+	}
+	rejected = rejected[:len(rejected)-1]
+	r.Coverage["binding_selftest"] = "an appended event of class fatal is rejected by OutcomeTrace in every run"
+	for _, g := range rejected {
 		if !reported[sigs[g]] {
 			reported[sigs[g]] = true
 			r.Violation(sigs[g], descr[g], map[string]interface{}{"event": lines[g], "what": descr[g]})
 		}
-		base = g + 1
-		rest = lines[base:]
 	}
+	r.Coverage["events_rejected_by_TLC"] = len(rejected)
 	r.Coverage["evaluations"] = len(lines)
 	r.Coverage["distinct_nontrivial"] = r.DistinctCount()
 	r.Coverage["rule"] = "matrix: every (file-system state, operation) cell of Outcome.tla once on the real binary; loader: every ragged shape of Loader.tla x CSV/TSV; boundary: every built-in function with 0-3 boundary arguments and the numeric clauses; random: seeded byte strings per format with random flags; non-trivial = distinct case"
@@ -826,6 +852,18 @@ func isolatedExecOrdered(r *core.Run, stmts []string, files map[string]string, n
 				errs[cur] = "process killed: out of memory (address space limit 4 GB)"
 			}
 			from = cur + 1
+			if from < to {
+				// the worker ended in the middle (internal failure, no answer, killed): whatever it held - lock files, a half-written
+				// table - must not make the statements after it look guilty
+				if ents, err := os.ReadDir(dir); err == nil {
+					for _, e := range ents {
+						_ = os.RemoveAll(filepath.Join(dir, e.Name()))
+					}
+				}
+				for n, c := range files {
+					writeFile(filepath.Join(dir, n), c)
+				}
+			}
 		}
 	})
 	for i := range classes {
